@@ -89,6 +89,40 @@ theorem cUpTo_bounds {T : List Tx} {cs : List CTx} {c : Nat} {m : Mem} (hlog : L
     obtain ⟨tx, htx, rfl, _⟩ := mem_logRuns hr
     exact hlog.maxle tx htx
 
+/-- the covered set of the invariant can be taken disjoint from the properties of the runs -/
+theorem StoreOK.props_disj {T : List Tx} {cs : List CTx} {p : PImg} (h : StoreOK T cs p) :
+    ∃ covered, (∀ q ∈ allProps T, q ∈ (logRuns (scan cs).ckpt cs).flatMap (·.props) ∨ q ∈ covered) ∧
+      ((scan cs).proot = 0 → covered = []) ∧
+      ((scan cs).proot ≠ 0 → ∃ t, treeFind p (scan cs).proot = some t ∧ TreeOK (allProps T) covered (scan cs).ptop t) ∧
+      ∀ q ∈ (logRuns (scan cs).ckpt cs).flatMap (·.props), q ∉ covered := by
+  obtain ⟨covered, h1, h2, h3⟩ := h.props
+  refine ⟨covered.filter (fun q => !((logRuns (scan cs).ckpt cs).flatMap (·.props)).contains q), ?_, ?_, ?_, ?_⟩
+  · intro q hq
+    by_cases hr : q ∈ (logRuns (scan cs).ckpt cs).flatMap (·.props)
+    · exact Or.inl hr
+    · rcases h1 q hq with h' | h'
+      · exact Or.inl h'
+      · right
+        rw [List.mem_filter]
+        exact ⟨h', by simpa using hr⟩
+  · intro hr; rw [h2 hr]; rfl
+  · intro hr
+    obtain ⟨t, hf, hok⟩ := h3 hr
+    obtain ⟨X, hs, ha, hc⟩ := hok.shape
+    exact ⟨t, hf, ⟨⟨X, hs, ha, fun q hq => hc q (List.mem_filter.mp hq).1⟩⟩⟩
+  · intro q hq hin
+    have h4 := (List.mem_filter.mp hin).2
+    have h5 : ((logRuns (scan cs).ckpt cs).flatMap (·.props)).contains q = true := List.contains_iff_mem.mpr hq
+    rw [h5] at h4
+    exact absurd h4 (by decide)
+
+theorem cProps_disj {T : List Tx} {fs : FS} {m : Mem} {cs : List CTx} {c : Nat} (h : InvOpen T fs m cs c) {covered : List Nat}
+    (hd : ∀ q ∈ (logRuns (scan cs).ckpt cs).flatMap (·.props), q ∉ covered) : ∀ q ∈ cProps m, q ∉ covered := by
+  intro q hq
+  have := (mem_sortNat q _).mp hq
+  rw [h.mruns] at this
+  exact hd q this
+
 /-- segments, tree and runs after the manifest of a compaction -/
 theorem frontier_ge2 {N : List Nat} {c : Nat} {p : PImg} (h : PagerOK N c p) : 2 ≤ frontier p := by
   have := h.booted.bm
@@ -299,8 +333,8 @@ theorem compact_safe {cfg : Cfg} {T : List Tx} {fs : FS} {m : Mem} {cs : List CT
   have hne' : m.runs.isEmpty = false := by simpa using hne
   have hruns : m.runs ≠ [] := by
     intro h0; rw [h0] at hne'; simp at hne'
-  obtain ⟨covered, h1, h2, h3⟩ := h.store.props
-  obtain ⟨lv, hlv, pp⟩ := pages_post hcap1 h hns covered h2 h3
+  obtain ⟨covered, h1, h2, h3, hdis⟩ := h.store.props_disj
+  obtain ⟨lv, hlv, pp⟩ := pages_post hcap1 h hns covered (cProps_disj h hdis) h2 h3
   obtain ⟨hS, _, _⟩ := compactA_steps cfg m fs.pv fs.wf hne' h.mwal pp.nofail
   rw [hS]
   -- (1) page phase
@@ -427,8 +461,8 @@ theorem compact_post {cfg : Cfg} {T : List Tx} {fs : FS} {m : Mem} {cs : List CT
   have hne' : m.runs.isEmpty = false := by simpa using hne
   have hruns : m.runs ≠ [] := by
     intro h0; rw [h0] at hne'; simp at hne'
-  obtain ⟨covered, h1, h2, h3⟩ := h.store.props
-  obtain ⟨lv, hlv, pp⟩ := pages_post hcap1 h hns covered h2 h3
+  obtain ⟨covered, h1, h2, h3, hdis⟩ := h.store.props_disj
+  obtain ⟨lv, hlv, pp⟩ := pages_post hcap1 h hns covered (cProps_disj h hdis) h2 h3
   obtain ⟨hS, _, hM⟩ := compactA_steps cfg m fs.pv fs.wf hne' h.mwal pp.nofail
   rw [hS, hM]
   have hinv := inv_after_pages h hlv pp h1 h2
